@@ -91,9 +91,38 @@ func dumpIncomplete(d string) string {
 	}
 	// a block introduced by a header (如果 / 再如 / 否则 / 每当 / 遍历 / 如何 / 拦截 …) needs at least
 	// one statement, 令： at least one pair: only the program's own top-level block may be empty
-	t := strings.Replace(s, "(exec (inputs) (block)", "(exec (inputs) (top)", 1)
-	if strings.Contains(t, "(block)") {
-		return "a block without any statement"
+	// (the statement block of an exec block - program, method, constructor - may be empty: a body
+	// can consist of 输入 and 拦截 parts only; those are the "(block)" right after an "(inputs …)" group)
+	t := s
+	for from := 0; ; {
+		i := strings.Index(t[from:], "(block)")
+		if i < 0 {
+			break
+		}
+		i += from
+		from = i + 1
+		j := i - 1
+		for j >= 0 && t[j] == ' ' {
+			j--
+		}
+		execLevel := false
+		if j >= 0 && t[j] == ')' {
+			depth := 0
+			for k := j; k >= 0; k-- {
+				if t[k] == ')' {
+					depth++
+				} else if t[k] == '(' {
+					depth--
+					if depth == 0 {
+						execLevel = strings.HasPrefix(t[k:], "(inputs")
+						break
+					}
+				}
+			}
+		}
+		if !execLevel {
+			return "a block without any statement"
+		}
 	}
 	if strings.Contains(t, "(let)") {
 		return "令： without any pair"
